@@ -100,9 +100,13 @@ def hdrWord (size : Nat) : Nat := (size - 2) ||| 0x1000
 def hdrOk (size : Nat) (index ethertype : Int) : Bool :=
   decide (hdrWord size < 65536) && fitsS 4 index && fitsU 2 ethertype
 
-/-- `pack("<HBBiHHHH", (self.size-2) | 0x1000, 0, 0, index, 0x8002, 0, ethertype, 0)` -/
-def hdrBytes (size : Nat) (index ethertype : Int) : List UInt8 :=
-  encLE 2 (hdrWord size) ++ [0, 0] ++ encLE 4 (ofSigned 4 index) ++ encLE 2 0x8002 ++
+/-- `0x8002 if self.data else 0x0002`: length 2, `more` only when a datagram follows -/
+def idLenWord (more : Bool) : Nat := if more then 0x8002 else 0x0002
+
+/-- `pack("<HBBiHHHH", (self.size-2) | 0x1000, 0, 0, index, 0x8002 if self.data else 0x0002, 0, ethertype, 0)`;
+`more` = "some datagram was appended" -/
+def hdrBytes (size : Nat) (index ethertype : Int) (more : Bool) : List UInt8 :=
+  encLE 2 (hdrWord size) ++ [0, 0] ++ encLE 4 (ofSigned 4 index) ++ encLE 2 (idLenWord more) ++
     encLE 2 0 ++ encLE 2 ethertype.toNat ++ encLE 2 0
 
 /-- `b"3" * (46 - self.size)` when `self.size < 46` -/
@@ -112,7 +116,7 @@ def padding (size : Nat) : List UInt8 := List.replicate (MIN_FRAME - size) (UInt
 def assemble (p : Packet) (index ethertype : Int) : Option (List UInt8) :=
   if hdrOk p.size index ethertype then
     (asmBody p.dgrams.length 1 p.dgrams).map fun body =>
-      hdrBytes p.size index ethertype ++ body ++ padding p.size
+      hdrBytes p.size index ethertype (!p.dgrams.isEmpty) ++ body ++ padding p.size
   else none
 
 /-! ### SterilePacket -/
